@@ -14,6 +14,7 @@
                  ReadRemote(remotePath)                                    PReadRemote
                  mergeLatest(treeMsg)                                      merge pcs
                  checkRecord: lock; latest := c.latest; unlock             PCheckRecord
+                              ReadHashes (tiles), compare                  PRecHashes
                  WriteCache(file, data)                                    PWriteCache
                  e.result = ...; done = 1; unlock                          PCellEnd
      mergeLatest(msg):  when := mergeLatestMem(msg)          (t_first = true)
@@ -25,14 +26,15 @@
                               WriteConfig(latest, msg, latestMsg)          PWriteConfig
                               if err != ErrWriteConflict return }
      mergeLatestMem(msg): lock; latest := c.latest; unlock                 PMemRead
-                          for { if tree.N <= latest.N { checkTrees; return past/now }
+                          for { if tree.N <= latest.N { checkTrees; return past/now }    PCheckOld
                                 checkTrees
                                 lock; if c.latest == latest { install } else { re-read }; unlock   PInstall
                                 if installed return future }
 
    In the honest world checkTrees and the tile reads under checkRecord are pure successes
-   (C10/C01; tile reads only memoise), so they are local computation attached to the
-   preceding step.  A head is (size, hash); the honest chain is the list of all heads the
+   (C10/C01; tile reads only memoise): checkTrees is the silent local step PCheckOld, or
+   the first half of PInstall; the tile reads of checkRecord are the silent step PRecHashes.
+   (They are separate steps because the harness can pause a goroutine there, see below.)  A head is (size, hash); the honest chain is the list of all heads the
    server ever signs during a run, the server's current head is [nth s_cur s_chain];
    growth of the server is the environment action AGrow.  The empty configuration file and
    the initial in-memory head (N = 0, no message) are [None].
@@ -58,8 +60,8 @@ Inductive result := RNone | RSkip | ROk (k : nat) | RErr.
 
 Inductive pc :=
 | PStart | PInitGate | PInitKey | PInitLatest
-| PMemRead | PInstall | PReadConfig | PReadMsg | PWriteConfig
-| PInitEnd | PCellGate | PReadCache | PReadRemote | PCheckRecord | PWriteCache | PCellEnd
+| PMemRead | PCheckOld | PInstall | PReadConfig | PReadMsg | PWriteConfig
+| PInitEnd | PCellGate | PReadCache | PReadRemote | PCheckRecord | PRecHashes | PWriteCache | PCellEnd
 | PDone.
 
 Record thread := {
@@ -184,9 +186,7 @@ Definition decide (th : thread) : thread :=
   match t_msg th with
   | None => ret (if size (t_lat th) =? 0 then WNow else WPast) th
   | Some _ =>
-      if size (t_msg th) <=? size (t_lat th)
-      then ret (if size (t_msg th) <? size (t_lat th) then WPast else WNow) th
-      else set_pc th PInstall
+      if size (t_msg th) <=? size (t_lat th) then set_pc th PCheckOld else set_pc th PInstall
   end.
 
 Definition skips (c : client) (th : thread) : bool :=
@@ -211,7 +211,11 @@ Definition step_at (s : state) (t : nat) (th : thread) (c : client) : option (st
       Some (set_thread s t (set_merge th (s_cfg s) true true), LReadConfig ci (s_cfg s))
   | PMemRead =>
       Some (set_thread s t (decide (set_lat th (c_mem c))), LTau)
+  | PCheckOld =>
+      (* checkTrees(tree, latest) succeeded (honest world) *)
+      Some (set_thread s t (ret (if size (t_msg th) <? size (t_lat th) then WPast else WNow) th), LTau)
   | PInstall =>
+      (* checkTrees(latest, tree) succeeded (honest world); lock and install or re-read *)
       if ohead_eqb (c_mem c) (t_lat th)
       then Some (set_thread (set_client s ci (set_mem c (t_msg th))) t (ret WFuture th), LTau)
       else Some (set_thread s t (decide (set_lat th (c_mem c))), LTau)
@@ -251,9 +255,13 @@ Definition step_at (s : state) (t : nat) (th : thread) (c : client) : option (st
       (* checkRecord fails when id >= latest.N; an honest record has id < size of its head,
          so the model fails (conservatively) whenever the head of the data is beyond memory *)
       if size (t_data th) <=? size (c_mem c)
-      then Some (set_thread s t (set_pc (set_res th (ROk (t_key th)))
-                                   (if t_wc th then PWriteCache else PCellEnd)), LTau)
-      else Some (set_thread s t (set_pc (set_res th RErr) PCellEnd), LTau)
+      then Some (set_thread s t (set_pc (set_lat th (c_mem c)) PRecHashes), LTau)
+      else Some (set_thread s t (set_pc (set_res (set_lat th (c_mem c)) RErr) PCellEnd), LTau)
+  | PRecHashes =>
+      (* ReadHashes through the tiles of the copied head and the comparison with the record
+         hash succeeded (honest world) *)
+      Some (set_thread s t (set_pc (set_res th (ROk (t_key th)))
+                              (if t_wc th then PWriteCache else PCellEnd)), LTau)
   | PWriteCache =>
       match t_data th with
       | Some h => Some (set_thread (set_cache s ((t_key th, h) :: s_cache s)) t (set_pc th PCellEnd),
@@ -358,14 +366,52 @@ Fixpoint advance (gates : bool) (fuel : nat) (s : state) (t : nat) : state :=
 
 Definition adv_fuel : nat := 32.
 
-Inductive obs := OGrow | OStep (t : nat) (l : label).
+(* The controller can also pause a lookup goroutine inside checkTrees / checkRecord (where the
+   client saves verified tiles: the WriteCache of a tile, which is called on the lookup
+   goroutine itself with no lock held).  [OYield t site] is the release of such a pause. *)
+Inductive site := SiteTrees | SiteRecord.
+Definition at_site (x : site) (p : pc) : bool :=
+  match x, p with
+  | SiteTrees, PCheckOld | SiteTrees, PInstall | SiteRecord, PRecHashes => true
+  | _, _ => false
+  end.
+
+Inductive obs := OGrow | OStep (t : nat) (l : label) | OYield (t : nat) (x : site).
+
+(* the pause in which thread t's running-on will end, if it ends in one *)
+Fixpoint next_site (t : nat) (tr : list obs) : option site :=
+  match tr with
+  | [] => None
+  | OGrow :: r => next_site t r
+  | OStep t' _ :: r => if Nat.eqb t t' then None else next_site t r
+  | OYield t' x :: r => if Nat.eqb t t' then Some x else next_site t r
+  end.
+
+(* run thread t on after a released call or pause: silent steps up to its next call, gate,
+   end — or up to the pause [stop] *)
+Fixpoint run_on (stop : option site) (fuel : nat) (s : state) (t : nat) : state :=
+  match fuel with
+  | O => s
+  | S f =>
+      match nth_error (s_threads s) t with
+      | Some th =>
+          if is_op (t_pc th) || is_gate (t_pc th)
+             || match stop with Some x => at_site x (t_pc th) | None => false end
+          then s
+          else match step s t with
+               | Some (s', _) => run_on stop f s' t
+               | None => s
+               end
+      | None => s
+      end
+  end.
 
 Inductive replay_err :=
 | ENotEnabled (k : nat)       (* the observed call is not the thread's next call, or the thread is blocked *)
 | EValues (k : nat)           (* the call is enabled but reads/writes other values *)
-| EGrow (k : nat).            (* the server grew beyond the scenario's chain *)
+| EGrow (k : nat)             (* the server grew beyond the scenario's chain *)
+| ESite (k : nat).            (* the thread is not inside checkTrees / checkRecord *)
 
-Definition olabel_eqb (a b : option head) := ohead_eqb a b.
 Definition label_kind_eqb (a b : label) : bool :=
   match a, b with
   | LTau, LTau | LReadConfigKey _, LReadConfigKey _ | LReadConfig _ _, LReadConfig _ _
@@ -394,9 +440,20 @@ Fixpoint replay (k : nat) (tr : list obs) (s : state) : state + replay_err :=
       let s1 := advance true adv_fuel s t in
       match step s1 t with
       | Some (s2, l') =>
-          if label_eqb l l' then replay (S k) r (advance false adv_fuel s2 t)
+          if label_eqb l l' then replay (S k) r (run_on (next_site t r) adv_fuel s2 t)
           else if label_kind_eqb l l' then inr (EValues k) else inr (ENotEnabled k)
       | None => inr (ENotEnabled k)
+      end
+  | OYield t x :: r =>
+      match nth_error (s_threads s) t with
+      | Some th =>
+          if at_site x (t_pc th)
+          then match step s t with
+               | Some (s2, _) => replay (S k) r (run_on (next_site t r) adv_fuel s2 t)
+               | None => inr (ESite k)
+               end
+          else inr (ESite k)
+      | None => inr (ESite k)
       end
   end.
 
